@@ -370,6 +370,18 @@ func genC14(r *Rng, tier string, idx int) *Program {
 	if r.Chance(0.5) && p.Ops[len(p.Ops)-1].Kind != "ls_close" {
 		p.Ops = append(p.Ops, Op{Kind: "ls_close"})
 	}
+	if r.Chance(0.12) {
+		// a database that is not in WAL mode yet when litestream first looks at it
+		// (litestream switches it; it must stay switched): the first operation is
+		// litestream's, and at the end litestream is closed while the application
+		// has no connection open
+		p.Variant = "found-in-rollback-mode"
+		p.Cfg.InitRollbackJournal = true
+		p.Ops = append([]Op{{Kind: "ls_sync"}}, p.Ops...)
+		if p.Ops[len(p.Ops)-1].Kind == "ls_close" {
+			p.Ops = p.Ops[:len(p.Ops)-1]
+		}
+	}
 	return p
 }
 
@@ -388,7 +400,21 @@ func runC14(t testingT, p *Program) *Result {
 		e.AtEnd = func(e *Env) *Violation {
 			// stop litestream (if still up) so the source is quiescent
 			if e.LS != nil {
-				e.stopLS(context.Background())
+				if e.Prog.Cfg.InitRollbackJournal {
+					// the application's last connection goes first: litestream's is
+					// then the only one when it closes
+					e.App.Do(&Step{K: "hold_rollback"})
+					e.App.Do(&Step{K: "reader_end"})
+					e.App.Close()
+					e.stopLS(context.Background())
+					if err := e.App.Open(); err != nil {
+						e.Res.Trouble = "reopen app: " + err.Error()
+						return nil
+					}
+					e.Res.Probes["closed_without_app_connection"]++
+				} else {
+					e.stopLS(context.Background())
+				}
 			}
 			e.App.Do(&Step{K: "hold_rollback"})
 			e.App.Do(&Step{K: "reader_end"})
@@ -418,7 +444,11 @@ func runC14(t testingT, p *Program) *Result {
 			twinDir := filepath.Join(e.Dir, "twin")
 			os.MkdirAll(twinDir, 0o755)
 			twinPath := filepath.Join(twinDir, "db")
-			ta, err := CreateAppDB(twinPath, &e.Prog.Cfg, e.Prog.Seed)
+			// (the twin is always in WAL mode: with a rollback journal the application's
+			// own readers would block its writers, which has nothing to do with litestream)
+			twinCfg := e.Prog.Cfg
+			twinCfg.InitRollbackJournal = false
+			ta, err := CreateAppDB(twinPath, &twinCfg, e.Prog.Seed)
 			if err != nil {
 				e.Res.Trouble = "twin create: " + err.Error()
 				return nil
